@@ -4,6 +4,7 @@
 package main
 
 import (
+	"time"
 	"encoding/json"
 	"fmt"
 	"os"
@@ -522,7 +523,8 @@ func initial() state {
 }
 
 type replay struct {
-	Ops []op `json:"ops"`
+	Ops []op     `json:"ops"`
+	CLI *cliCase `json:"cli,omitempty"`
 }
 
 func main() {
@@ -559,7 +561,7 @@ func main() {
 		for _, x := range ops {
 			names = append(names, x.String())
 		}
-		run.Report("C10|"+kind+"|"+class, fmt.Sprintf("after %s: %s", strings.Join(names, " ; "), detail), replay{ops})
+		run.Report("C10|"+kind+"|"+class, fmt.Sprintf("after %s: %s", strings.Join(names, " ; "), detail), replay{Ops: ops})
 	}
 	ex = &xs.Explorer[cstate]{
 		Key:       func(c cstate) string { return string(c[:strings.Index(string(c), "#")]) },
@@ -673,6 +675,9 @@ func main() {
 	run.Set("cap_hit", ex.CapHit)
 	run.Set("bounds", map[string]int{"max_inputs": lim.maxIn, "max_outputs": lim.maxOut, "max_processors": lim.maxProc, "depth": lim.depth})
 	run.Set("edits_by_kind", opKinds)
+	tCLI := time.Now()
+	cliStage(run)
+	run.Set("cli_stage_wall_s", time.Since(tCLI).Seconds())
 	// samples: a few deepest histories
 	for id := ex.States - 1; id >= 0 && id > ex.States-4; id-- {
 		p := ex.Path(id)
@@ -694,6 +699,26 @@ func doReplay(run *vlib.Run) {
 	if _, err := vlib.LoadReplay(run.Replay, &rp); err != nil {
 		fmt.Println("cannot load replay:", err)
 		os.Exit(2)
+	}
+	if rp.CLI != nil {
+		scratch, cleanup := vlib.Scratch("c10")
+		defer cleanup()
+		bin, err := buildCLI(scratch)
+		if err != nil {
+			fmt.Println("cmd/bondmachine does not build:", err)
+			os.Exit(2)
+		}
+		ms, _ := cliMachine(rp.CLI.K)
+		c, d := runCLICase(bin, scratch, ms, *rp.CLI)
+		fmt.Printf("bondmachine %s %s on the fully bonded %d-in/%d-out machine: %s %s\n", rp.CLI.Flag, strings.Join(rp.CLI.List, ","), rp.CLI.K, rp.CLI.K, c, d)
+		if c != "" {
+			run.Report("C10|cli"+rp.CLI.Flag+"|"+c, d, rp)
+		}
+		run.Set("states", 1)
+		run.Set("transitions", 1)
+		run.Set("traces_validated_against_impl", 1)
+		run.Finish()
+		return
 	}
 	s := initial()
 	for i, o := range rp.Ops {
